@@ -6,6 +6,7 @@ use libfuzzer_sys::fuzz_target;
 use vcore::report::Local;
 
 fuzz_target!(|data: &[u8]| {
+    checks::fz::init();
     if data.len() < 5 {
         return;
     }
